@@ -176,6 +176,8 @@ def stage_build_impl(log):
     """Build the harness against /repo's current working tree with hooks on."""
     os.makedirs(BUILD, exist_ok=True)
     shutil.copyfile(os.path.join(REPO, "go.sum"), os.path.join(HARNESS, "go.sum"))
+    if REPO != "/repo":  # scratch copies of /verif working against a scratch worktree of the repository
+        run(["go", "mod", "edit", "-replace", "github.com/nspcc-dev/neofs-node=" + REPO], cwd=HARNESS, env=goenv())
     rc, out = run(["go", "build", "-tags", "verif", "-o", VH, "."], cwd=HARNESS, env=goenv(), timeout=3600)
     log.write(out)
     return rc == 0, out
@@ -358,11 +360,17 @@ def ddmin(seq, pred, max_iters=400):
 # --------------------------------------------------------------------------- findings
 
 def load_findings():
+    out = []
     p = os.path.join(ROOT, "known_findings.json")
-    if not os.path.exists(p):
-        return []
-    with open(p) as f:
-        return json.load(f).get("findings", [])
+    if os.path.exists(p):
+        with open(p) as f:
+            out += json.load(f).get("findings", [])
+    d = os.path.join(ROOT, "known_findings.d")  # per-property drop-in files, same format
+    for fn in sorted(os.listdir(d)) if os.path.isdir(d) else []:
+        if fn.endswith(".json"):
+            with open(os.path.join(d, fn)) as f:
+                out += json.load(f).get("findings", [])
+    return out
 
 
 def match_finding(findings, pid, assertion, text):
